@@ -30,6 +30,19 @@ def dominated_by_call(fnode, target, mname):
     """True when a statement that unconditionally calls self.<mname>() precedes `target` in a block
     that encloses it (structured-program dominance; loops and branches only nest)."""
     pm = parents_map(fnode)
+    # conditions under which the target runs (it lies in the body of these ifs), as long as the routine
+    # itself does not assign what they test
+    stored = {n.attr for n in ast.walk(fnode) if isinstance(n, ast.Attribute) and isinstance(n.ctx, ast.Store)}
+    stored |= {n.id for n in ast.walk(fnode) if isinstance(n, ast.Name) and isinstance(n.ctx, ast.Store)}
+    guards = set()
+    child, p = target, pm.get(target)
+    while p is not None and p is not fnode:
+        if isinstance(p, ast.If) and any(child is s_ for s_ in p.body):
+            names = {x.attr for x in ast.walk(p.test) if isinstance(x, ast.Attribute)} | \
+                    {x.id for x in ast.walk(p.test) if isinstance(x, ast.Name) and x.id != "self"}
+            if not (names & stored) and not any(isinstance(x, ast.Call) for x in ast.walk(p.test)):
+                guards.add(norm(p.test))
+        child, p = p, pm.get(p)
     node = target
     while node is not fnode and node is not None:
         parent = pm.get(node)
@@ -39,6 +52,10 @@ def dominated_by_call(fnode, target, mname):
             if node in blk:
                 for st in blk[:blk.index(node)]:
                     if isinstance(st, ast.Expr) and _is_call_of(st.value, mname):
+                        return True
+                    # `if G: self.deriver()` before a use that itself runs only under the same G
+                    if isinstance(st, ast.If) and norm(st.test) in guards and \
+                            any(isinstance(b, ast.Expr) and _is_call_of(b.value, mname) for b in st.body):
                         return True
         node = parent
     return False
